@@ -48,6 +48,25 @@ theorem variant_same_string_same_key_norm (sp : Str → Option (Str × Str)) (pu
     normalizedLruStems sp puny parseUrl id o ir sa u = normalizedLruStems sp puny parseUrl id o ir sa v := by
   rw [normalized_stems_factor sp puny hpc o sa hu hnu, normalized_stems_factor sp puny hpc o sa hv hnv, h]
 
+/-- the same on the `SplitResult`s, the shape of the code (stems.py:120-122 hands
+`normalize_url(url, unsplit=False)` to `lru_stems_from_parsed_url`): two tuples in the image of
+`normalize_url` on the class that are PRINTED alike have the same stems -/
+theorem variant_same_print_same_stems_norm (sp : Str → Option (Str × Str)) (puny : Str → Str)
+    (hpc : PunyClean puny) (o : Opts) (sa ir : Bool) {g g' : UrlG} {po po' : Option Nat} {u v : Str}
+    (hu : StemClass ir g po u) (hv : StemClass ir g' po' v)
+    (hnu : HasNet (normParts puny o g.proto.hasProto (g.record po)))
+    (hnv : HasNet (normParts puny o g'.proto.hasProto (g'.record po')))
+    (h : finalString o g.proto.hasProto (normParts puny o g.proto.hasProto (g.record po)) =
+      finalString o g'.proto.hasProto (normParts puny o g'.proto.hasProto (g'.record po'))) :
+    stemsOfSplit sp sa (normParts puny o g.proto.hasProto (g.record po)) =
+      stemsOfSplit sp sa (normParts puny o g'.proto.hasProto (g'.record po')) := by
+  have hs : normalizeUrlString puny id o ir u = normalizeUrlString puny id o ir v := by
+    rw [(normalizeUrlString_class puny o hu).1, (normalizeUrlString_class puny o hv).1, h]
+  have := variant_same_string_same_key_norm sp puny hpc o sa ir hu hv hnu hnv hs
+  unfold normalizedLruStems at this
+  rw [(normalizeUrlString_class puny o hu).2, (normalizeUrlString_class puny o hv).2] at this
+  simpa using this
+
 /-- **… so storing one and querying the other hits**, whatever was stored before -/
 theorem variant_store_then_query_hits_norm (sp : Str → Option (Str × Str)) (puny : Str → Str)
     (hpc : PunyClean puny) (o : Opts) (sa ir : Bool) {g g' : UrlG} {po po' : Option Nat} {u v : Str}
